@@ -113,4 +113,141 @@ pub proof fn lemma_uri_components(s: Seq<u8>)
     axiom_uri_facts(s);
     lemma_uriref_components(s);
 }
+
+// =====================================================================================================================
+// G1b: the converse - a text whose App. B pieces are valid component values is a valid URI reference - and its
+// consequence for the setters (C04: "safe mutation never breaks well-formedness", URI family, on the spec level)
+// =====================================================================================================================
+/// certificate comp_uriref_compose::compose (literal restatement; k: end of the scheme when h == k + 1; ae == h: no authority;
+/// f: end of the first path segment, used only without scheme and authority)
+#[verifier::external_body]
+pub proof fn axiom_compose(s: Seq<u8>, k: int, h: int, ae: int, pe: int, qe: int, f: int)
+    requires
+        h == 0 || (0 <= k && h == k + 1 && h <= s.len() && s[k] == 58 && lang_scheme(s.subrange(0, k))),
+        0 <= h <= ae <= pe <= qe <= s.len(),
+        ae == h || (h + 2 <= ae && s[h] == 47 && s[h + 1] == 47 && lang_authority(s.subrange(h + 2, ae))),
+        lang_path(s.subrange(ae, pe)),
+        ae > h ==> (pe == ae || s[ae] == 47),
+        ae == h ==> !(h + 1 < pe && s[h] == 47 && s[h + 1] == 47),
+        (ae == h && h == 0) ==> (0 <= f <= pe && (forall|i: int| 0 <= i < f ==> #[trigger] s[i] != 47 && s[i] != 58) && (f == pe || s[f] == 47)),
+        qe == pe || (s[pe] == 63 && lang_query(s.subrange(pe + 1, qe))),
+        qe == s.len() || (s[qe] == 35 && lang_fragment(s.subrange(qe + 1, s.len() as int))),
+    ensures lang_uriref(s),
+{}
+/// certificate comp_uri_path_prefix::comp_path_prefix
+#[verifier::external_body]
+pub proof fn axiom_path_prefix(p: Seq<u8>)
+    requires lang_path(p),
+    ensures lang_path(make_abs(p)), lang_path(shield_dslash(p)), lang_path(shield_colon(p)),
+{}
+
+/// position of the first '/' before `to` (or `to`)
+pub open spec fn first_slash(s: Seq<u8>, from: int, to: int) -> int
+    decreases to - from
+{
+    if from >= to || from < 0 || from >= s.len() { to } else if s[from] == 47 { from } else { first_slash(s, from + 1, to) }
+}
+proof fn lemma_first_slash(s: Seq<u8>, from: int, to: int)
+    requires 0 <= from <= to <= s.len(),
+    ensures from <= first_slash(s, from, to) <= to,
+        forall|i: int| from <= i < first_slash(s, from, to) ==> #[trigger] s[i] != 47,
+        first_slash(s, from, to) == to || s[first_slash(s, from, to)] == 47,
+    decreases to - from
+{
+    if from < to && s[from] != 47 { lemma_first_slash(s, from + 1, to); }
+}
+
+/// PROVED (decomposition theorem, converse half): the App. B decomposition of ANY text satisfies the context conditions by
+/// construction, so valid pieces are enough
+pub proof fn lemma_uriref_compose(s: Seq<u8>)
+    requires comps_valid(s),
+    ensures lang_uriref(s),
+{
+    lemma_x_layout(s);
+    lemma_first_of_bounds(s, 0, C_CSQF);
+    let k = x_sch_end(s);
+    let h = x_hier(s);
+    if x_has_auth(s) { lemma_first_of_bounds(s, h + 2, C_SQF); }
+    let ae = x_auth_end(s);
+    lemma_first_of_bounds(s, ae, C_QF);
+    let pe = x_path_end(s);
+    if x_has_query(s) { lemma_first_of_bounds(s, pe + 1, C_F); }
+    let qe = x_query_end(s);
+    let f = first_slash(s, 0, pe);
+    if ae == h && h == 0 {
+        lemma_first_slash(s, 0, pe);
+        assert forall|i: int| 0 <= i < f implies #[trigger] s[i] != 47 && s[i] != 58 by {
+            if s[i] == 58 {
+                // the first of : / ? # comes no later than i, is not ':' (no scheme), hence '/', '?' or '#': impossible before f <= pe
+                assert(cls(C_CSQF, s[i]));
+                assert(k <= i);
+                assert(k < s.len() && cls(C_CSQF, s[k]) && s[k] != 58);
+                if s[k] == 47 { assert(k < f); } else { assert(cls(C_QF, s[k])); assert(k < pe); }
+            }
+        }
+    }
+    if ae > h && pe > ae { assert(!cls(C_QF, s[ae])); assert(cls(C_SQF, s[ae])); }
+    axiom_compose(s, k, h, ae, pe, qe, f);
+}
+/// the decomposition theorem for URI references
+pub proof fn lemma_uriref_iff_components(s: Seq<u8>)
+    ensures lang_uriref(s) <==> comps_valid(s),
+{
+    if lang_uriref(s) { lemma_uriref_components(s); }
+    if comps_valid(s) { lemma_uriref_compose(s); }
+}
+
+/// PROVED: a text that reads back as five valid pieces is a valid URI reference - applies to the postcondition of every
+/// component setter (set_post, C05)
+pub proof fn lemma_set_post_valid(o: Seq<u8>, n: Seq<u8>, sch: Option<Seq<u8>>, au: Option<Seq<u8>>, p: Seq<u8>, q: Option<Seq<u8>>, f: Option<Seq<u8>>)
+    requires set_post(o, n, sch, au, p, q, f), parts_valid(sch, au, p, q, f),
+    ensures lang_uriref(n),
+{
+    lemma_uriref_compose(n);
+}
+/// C04 for the five setters of a URI reference: with a valid old text and a valid argument the new text is valid.
+/// Each hypothesis `set_post(..)` is literally the proved postcondition of the setter (contracts/reference.vspec).
+pub proof fn lemma_set_scheme_valid(o: Seq<u8>, n: Seq<u8>, ns: Option<Seq<u8>>)
+    requires lang_uriref(o), ns is Some ==> lang_scheme(ns.unwrap()),
+        set_post(o, n, ns, r_auth(o), (if ns is None && r_auth(o) is None && first_seg_has_colon(r_path(o)) { shield_colon(r_path(o)) } else { r_path(o) }), r_query(o), r_frag(o)),
+    ensures lang_uriref(n),
+{
+    lemma_uriref_components(o);
+    axiom_path_prefix(r_path(o));
+    lemma_uriref_compose(n);
+}
+pub proof fn lemma_set_authority_valid(o: Seq<u8>, n: Seq<u8>, na: Option<Seq<u8>>)
+    requires lang_uriref(o), na is Some ==> lang_authority(na.unwrap()),
+        set_post(o, n, r_scheme(o), na, set_auth_path(r_auth(o), na is Some, r_path(o)), r_query(o), r_frag(o)),
+    ensures lang_uriref(n),
+{
+    lemma_uriref_components(o);
+    axiom_path_prefix(r_path(o));
+    lemma_uriref_compose(n);
+}
+pub proof fn lemma_set_path_valid(o: Seq<u8>, n: Seq<u8>, np: Seq<u8>)
+    requires lang_uriref(o), lang_path(np),
+        set_post(o, n, r_scheme(o), r_auth(o), fit_path(r_scheme(o), r_auth(o), np), r_query(o), r_frag(o)),
+    ensures lang_uriref(n),
+{
+    lemma_uriref_components(o);
+    axiom_path_prefix(np);
+    lemma_uriref_compose(n);
+}
+pub proof fn lemma_set_query_valid(o: Seq<u8>, n: Seq<u8>, nq: Option<Seq<u8>>)
+    requires lang_uriref(o), nq is Some ==> lang_query(nq.unwrap()),
+        set_post(o, n, r_scheme(o), r_auth(o), r_path(o), nq, r_frag(o)),
+    ensures lang_uriref(n),
+{
+    lemma_uriref_components(o);
+    lemma_uriref_compose(n);
+}
+pub proof fn lemma_set_fragment_valid(o: Seq<u8>, n: Seq<u8>, nf: Option<Seq<u8>>)
+    requires lang_uriref(o), nf is Some ==> lang_fragment(nf.unwrap()),
+        set_post(o, n, r_scheme(o), r_auth(o), r_path(o), r_query(o), nf),
+    ensures lang_uriref(n),
+{
+    lemma_uriref_components(o);
+    lemma_uriref_compose(n);
+}
 } // verus!
